@@ -341,9 +341,23 @@ def infer(prog, order_no=0):
     if order_no % 2 == 1:
         names.reverse()
     dag = L.DAGCode({n: phases[n] for n in names}, dag0.initial_phase)
-    with contextlib.redirect_stdout(io.StringIO()):
-        table = infer_kinds(dag, registry())
+    import signal
+
+    def _alarm(signum, frame):
+        raise InferenceHang("kind inference does not terminate within 10 s")
+    old = signal.signal(signal.SIGALRM, _alarm)
+    signal.setitimer(signal.ITIMER_REAL, 10)
+    try:
+        with contextlib.redirect_stdout(io.StringIO()):
+            table = infer_kinds(dag, registry())
+    finally:
+        signal.setitimer(signal.ITIMER_REAL, 0)
+        signal.signal(signal.SIGALRM, old)
     return dag, table
+
+
+class InferenceHang(BaseException):
+    pass
 
 
 def harness(prog, dag, table, K):
@@ -406,6 +420,8 @@ def check_program_order(prog, K, max_paths, order_no):
     st = Stats()
     try:
         dag, table = infer(prog, order_no)
+    except InferenceHang as e:
+        raise common.HarnessError("program %s: %s (inconclusive for C09; see C14)" % (prog.get("name"), e))
     except Exception:  # noqa
         return st, None, {"inferred": False, "paths": 0}
     st.obligations += 1
